@@ -58,7 +58,7 @@ PROPS = {
         "level": "proof",
     },
     "C20": {
-        "vx": ["dse_coalesce", "dse_guard", "traversal"],
+        "vx": ["dse_coalesce", "dse_guard", "traversal", "dse_expr_guard"],
         "kl": ["dse_delete_entries"],
         "level": "proof",
     },
